@@ -562,7 +562,10 @@ pub trait Wrap<Bound=Self>: Sized {
         where Self: From<Bound> + Sub<Output=Self> + PartialOrd,
             Bound: From<u16>
     {
-        let num = Self::wrap(target - self, Bound::from(360));
+        // NOTE: Reduce both angles first, so that `target - self` can neither overflow nor go below zero.
+        let t = Self::wrap(target, Bound::from(360));
+        let s = Self::wrap(self, Bound::from(360));
+        let num = if t >= s { t - s } else { Self::from(Bound::from(360)) - (s - t) };
         if num > Self::from(Bound::from(180)) {
             return num - Self::from(Bound::from(360));
         }
